@@ -23,6 +23,8 @@ pub enum PolicyForm {
     Assign,
     /// `policy N { hash: 0x.., script: 0x.., ref: 0x..#i, }`
     Ctor { script: Option<Vec<u8>>, rf: Option<(Vec<u8>, u64)> },
+    /// `policy N { <raw field list> }` for shapes the semantics does not model (mutators)
+    RawCtor(String),
 }
 
 #[derive(Clone, Debug)]
@@ -507,6 +509,11 @@ impl Printer {
                     self.tok("=");
                     self.tok(&hex(&pol.hash));
                     self.tok(";");
+                }
+                PolicyForm::RawCtor(fields) => {
+                    self.tok("{");
+                    self.tok(fields);
+                    self.tok("}");
                 }
                 PolicyForm::Ctor { script, rf } => {
                     self.tok("{");
